@@ -343,3 +343,21 @@ func ReplaySched(col *core.Collector, data []byte, path string) error {
 	}
 	return nil
 }
+
+// ReplayExtend re-executes a deadline-extension scenario from a replay file.
+func ReplayExtend(col *core.Collector, data []byte, path string) error {
+	var w struct {
+		Case ExtendCase `json:"extend_case"`
+	}
+	if err := json.Unmarshal(data, &w); err != nil {
+		return err
+	}
+	v, _ := runExtend(&w.Case)
+	col.Eval(1)
+	fmt.Printf("scenario %+v\n", w.Case)
+	if v != "" {
+		fmt.Println("violation:", v)
+		col.Violation(core.Violation{Property: "C13", Signature: "extend:" + sigOf(v), Detail: v, Replay: path})
+	}
+	return nil
+}
